@@ -1088,7 +1088,8 @@ class Container:
         if isinstance(solvent, Container):
             # Calculate mol_weight and density of solvent
             # get total mass of solvent
-            total_mass = sum(Unit.convert_from(substance, amount, 'U' if substance.is_enzyme() else 'mol', 'g')
+            total_mass = sum(Unit.convert_from(substance, amount,
+                                               'U' if substance.is_enzyme() else config.moles_storage_unit, 'g')
                              for substance, amount in solvent.contents.items())
             total_moles = Unit.convert_from_storage(sum(amount for substance, amount in solvent.contents.items()
                                                         if not substance.is_enzyme()), 'mol')
